@@ -311,6 +311,19 @@ def path_json(dt):
     return dt
 
 
+def json_offenders(dt):
+    """(node path, attribute name, type name) of every attribute json.dumps refuses"""
+    out = []
+    for node in dt.subtree:
+        for owner, attrs in [(node.path, node.attrs)] + [("%s:%s" % (node.path, v), node[v].attrs) for v in node.variables]:
+            for k, val in attrs.items():
+                try:
+                    json.dumps(val, default=jdefault)
+                except TypeError:
+                    out.append((owner, str(k), type(val).__name__))
+    return out
+
+
 def path_placeholders(dt):
     from xeofs.utils.io import insert_placeholders
     return insert_placeholders(dt)
@@ -418,8 +431,14 @@ class Case:
         self.kw = kw
         if self.rot:
             R = Z.rotator_for(self.name)
-            r = R(n_modes=2, power=1, max_iter=200, rtol=1e-7, **({"compute": False} if lazy else {}))
-            r.fit(m)
+            r = R(n_modes=2, power=1, max_iter=5000, rtol=1e-8, **({"compute": False} if lazy else {}))
+            try:
+                r.fit(m)
+            except RuntimeError as e:
+                if "converge" not in str(e) or self.seed > 50000:
+                    raise
+                self.seed += 10007      # Varimax did not converge on this draw: take another one
+                return self.build(lazy)
             return r
         return m
 
@@ -470,7 +489,8 @@ def flat(o, prefix=""):
 
 
 def attr_causes(a, b, own_keys):
-    """classify how two attribute dictionaries differ -> list of (cause, detail)"""
+    """classify how two attribute dictionaries differ -> list of (cause, detail); `own_keys` are the USER's attribute
+    names: a string under any other key was written by xeofs itself (model parameters as strings)"""
     out = []
     for k in sorted(set(a) | set(b), key=str):
         if k in a and k in b and strict_eq_attr(a[k], b[k]):
@@ -478,10 +498,12 @@ def attr_causes(a, b, own_keys):
         va, vb = a.get(k, "<absent>"), b.get(k, "<absent>")
         if k in ("multiindexes", "name_map"):
             out.append(("serializer-attrs-in-result", "%s: %r -> %r" % (k, va, vb)))
-        elif k in own_keys and isinstance(va, str) and not isinstance(vb, str):
+        elif k not in own_keys and isinstance(va, str) and k in b and not isinstance(vb, str):
             out.append(("own-attr-string-becomes-%s" % type(vb).__name__, "%s: %r -> %r" % (k, va, vb)))
         elif isinstance(va, str) and k in b and not isinstance(vb, str):
             out.append(("user-attr-string-%r-becomes-%s" % (va, type(vb).__name__), "%s: %r -> %r" % (k, va, vb)))
+        elif k in own_keys and isinstance(va, str) and k not in b:
+            out.append(("user-attr-string-%r-dropped" % va, "%s: %r -> absent" % (k, va)))
         elif isinstance(va, tuple) and isinstance(vb, list) and list(va) == vb:
             out.append(("tuple-becomes-list", "%s" % k))
         else:
@@ -604,57 +626,72 @@ def sig_diff(s0, s1):
 
 
 def report(ctx, case, moment, path, diffs):
-    """one violation per (class-or-cause, path, kind)"""
-    base = dict(kind="model", cls=case.name, rot=case.rot, struct=case.struct, attrs=case.attrs, pv=case.pv, seed=case.seed,
-                moment=moment, path=path)
+    """one violation per (class-or-cause, path, kind); where the cause is known to lie in the codec, in the serializer's
+    handling of Datasets or of names, the key names the cause instead of the class"""
     for name, kind, det in diffs:
         ans = name.split("[")[0].split(".")[0]
+        base = dict(rp(case, moment, path), answer=name, diff_kind=kind, detail=det)
+        where = "%s (%s, input %s, user attrs %s, params %s)" % (case.label, moment, case.struct, case.attrs, case.kw)
         if kind.startswith("attrs:"):
             cause = kind[len("attrs:"):]
-            # attribute drift is keyed by its cause, not by class: the cause is in the codec / serializer
-            key = "C13:%s:result-attrs:%s" % (path, cause)
-            what = ("%s (%s, input %s, user attrs %s, %s): attributes of %s differ after %s: %s"
-                    % (case.label, moment, case.struct, case.attrs, path, name, path, det))
+            if "serializer-attrs-in-result" in cause:
+                key = "C13:dataset-input:result-attrs:serializer-attrs-in-result"
+            else:
+                key = "C13:%s:result-attrs:%s" % (path, cause)
+            what = "%s: attributes of %s differ after %s: %s (expected: identical attributes)" % (where, name, path, det)
         else:
             k = kind.split(":", 1)[1] if kind.startswith("raised:") else kind
-            extra = ":" + case.struct if case.struct in ("name=dim",) else ""
-            key = "C13:%s:%s:%s%s:%s:%s" % (case.label, moment, path, extra, ans, k)
-            what = ("%s (%s, input %s, user attrs %s, params %s): after %s, %s of the rebuilt model %s: %s"
-                    % (case.label, moment, case.struct, case.attrs, case.kw, path, name,
-                       "raised" if kind.startswith("raised") else "differs (" + kind + ")", det))
-        ctx.violation(key, what, dict(base, answer=name, diff_kind=kind, detail=det))
-
-
-def run_paths(ctx, case, m, moment, o0, paths):
-    cls = type(m)
-    own = set(getattr(m, "attrs", {}).keys())
-    n_numeric = 0
-    for pname, pf in paths:
-        try:
-            dt = pf(m.serialize())
-        except Exception as e:
-            cause = ""
-            if pname == "nc-codec" and case.attrs in ("empty-string", "brackets"):
-                # the codec itself fails on the user's strings: the cause is keyed once, under the codec
-                ctx.violation("C13:nc-codec:model-tree:user-attrs=%s:%s" % (case.attrs, C.errkind(e)),
-                              "F-13: %s fitted on data whose attributes are %r cannot be read back through the netCDF attribute codec: %r"
-                              % (case.label, USER_ATTRS[case.attrs], e),
-                              dict(kind="model", cls=case.name, rot=case.rot, struct=case.struct, attrs=case.attrs, pv=case.pv,
-                                   seed=case.seed, moment=moment, path=pname))
+            verb = "raised" if kind.startswith("raised") else "differs (" + kind + ")"
+            if case.struct == "name=dim":
+                key = "C13:name=feature-dim:%s:%s" % (ans, k)
+            elif path == "nc-codec" and case.attrs in ("True", "list-like", "empty-string", "brackets") and moment == "fresh":
+                key = "C13:nc-codec:user-attrs=%s:%s:%s" % (case.attrs, ans, k)
             else:
-                ctx.violation("C13:%s:%s:%s:tree:%s" % (case.label, moment, pname, C.errkind(e)),
-                              "%s (%s, input %s, attrs %s): building the tree for path %s raised %r" % (case.label, moment, case.struct, case.attrs, pname, e),
-                              dict(kind="model", cls=case.name, rot=case.rot, struct=case.struct, attrs=case.attrs, pv=case.pv,
-                                   seed=case.seed, moment=moment, path=pname))
+                key = "C13:%s:%s:%s:%s:%s" % (case.label, moment, path, ans, k)
+            what = "%s: after %s, %s of the rebuilt model %s: %s (expected: identical to the fitted model's answer)" % (where, path, name, verb, det)
+        ctx.violation(key, what, base)
+
+
+def rp(case, moment, path):
+    return dict(kind="model", cls=case.name, rot=case.rot, struct=case.struct, attrs=case.attrs, pv=case.pv, seed=case.seed,
+                moment=moment, path=path)
+
+
+def run_paths(ctx, case, m, moment, o0, paths, first_tree=None):
+    """rebuild the model from its tree along each path and compare the answers; `first_tree` is an already serialised
+    tree that the first path may consume"""
+    cls = type(m)
+    user_keys = set(USER_ATTRS[case.attrs][0]) | set(USER_ATTRS[case.attrs][1])
+    n_numeric = 0
+    sfx = ":" + case.struct if case.struct == "name=dim" else ""
+    for i, (pname, pf) in enumerate(paths):
+        try:
+            dt = pf(first_tree if (i == 0 and first_tree is not None) else m.serialize())
+        except Exception as e:
+            if pname == "nc-codec" and case.attrs in ("empty-string", "brackets"):
+                # the codec itself fails on the user's strings: keyed once, under the codec
+                ctx.violation("C13:nc-codec:model-tree:user-attrs=%s:%s" % (case.attrs, C.errkind(e)),
+                              "F-13: %s fitted on data whose attributes are %r cannot be read back through the netCDF attribute "
+                              "codec: %r (expected: the tree is decoded and the model rebuilt)" % (case.label, USER_ATTRS[case.attrs], e),
+                              rp(case, moment, pname))
+            elif pname == "json":
+                bad = json_offenders(m.serialize())
+                for (npath, aname, tname) in bad[:3] or [("?", "?", type(e).__name__)]:
+                    ctx.violation("C13:json:attribute-not-serialisable:%s:%s" % (aname, tname),
+                                  "%s (%s, input %s): attribute %r of tree node %s holds a %s, which cannot be written as JSON "
+                                  "(zarr attributes): %r (expected: every attribute of a serialised model can be stored)"
+                                  % (case.label, moment, case.struct, aname, npath, tname, e), rp(case, moment, pname))
+            else:
+                ctx.violation("C13:%s:%s:%s%s:tree:%s" % (case.label, moment, pname, sfx, C.errkind(e)),
+                              "%s (%s, input %s, attrs %s): building the tree for path %s raised %r"
+                              % (case.label, moment, case.struct, case.attrs, pname, e), rp(case, moment, pname))
             continue
         try:
             m2 = cls.deserialize(dt)
         except Exception as e:
-            ctx.violation("C13:%s:%s:%s%s:deserialize:%s" % (case.label, moment, pname, ":" + case.struct if case.struct == "name=dim" else "", C.errkind(e)),
+            ctx.violation("C13:%s:%s:%s%s:deserialize:%s" % (case.label, moment, pname, sfx, C.errkind(e)),
                           "%s (%s, input %s, user attrs %s, params %s): %s.deserialize(tree) after %s raised %r"
-                          % (case.label, moment, case.struct, case.attrs, case.kw, cls.__name__, pname, e),
-                          dict(kind="model", cls=case.name, rot=case.rot, struct=case.struct, attrs=case.attrs, pv=case.pv,
-                               seed=case.seed, moment=moment, path=pname))
+                          % (case.label, moment, case.struct, case.attrs, case.kw, cls.__name__, pname, e), rp(case, moment, pname))
             continue
         o1 = observe(m2, case)
         if pname == "placeholders":
@@ -662,7 +699,7 @@ def run_paths(ctx, case, m, moment, o0, paths):
             for k in list(o1):
                 if is_raised(o1[k]) and "placeholder" in o1[k][2].lower():
                     o1[k] = o0[k]
-        diffs, numeric = compare_obs(o0, o1, own)
+        diffs, numeric = compare_obs(o0, o1, user_keys)
         n_numeric += numeric
         report(ctx, case, moment, pname, diffs)
     return n_numeric
@@ -676,56 +713,55 @@ def run_case(ctx, case, paths, moments):
         ctx.dist["fit-not-supported/%s/%s" % (case.label, case.struct)] += 1
         if case.struct == "da2" and case.pv == 0:
             ctx.violation("C13:harness:%s:fit" % case.label, "harness: %s could not be fitted on the plain case: %r" % (case.label, e),
-                          dict(kind="model", cls=case.name, rot=case.rot, struct=case.struct), has_input=False)
+                          rp(case, "fit", "-"), has_input=False)
         return
+    user_keys = set(USER_ATTRS[case.attrs][0]) | set(USER_ATTRS[case.attrs][1])
     numeric = 0
-    sig0 = tree_signature(m.serialize())
+    dt0 = m.serialize()
+    sig0 = tree_signature(dt0)
     o0 = observe(m, case)
     if "fresh" in moments:
-        numeric += run_paths(ctx, case, m, "fresh", o0, paths)
+        numeric += run_paths(ctx, case, m, "fresh", o0, paths, first_tree=dt0 if paths[0][0] == "direct" else None)
     # the tree must not depend on queries having been answered
     if "after-queries" in moments:
-        sig1 = tree_signature(m.serialize())
-        d = sig_diff(sig0, sig1)
+        dt1 = m.serialize()
+        d = sig_diff(sig0, tree_signature(dt1))
         if d:
             ctx.violation("C13:%s:after-queries:tree-changed" % case.label,
-                          "%s: the serialised tree changed after transform/inverse_transform/components/scores were called: %s" % (case.label, d[:4]),
-                          dict(kind="model", cls=case.name, rot=case.rot, struct=case.struct, attrs=case.attrs, pv=case.pv, seed=case.seed,
-                               moment="after-queries"))
-            numeric += run_paths(ctx, case, m, "after-queries", o0, paths[:1])
+                          "%s: the serialised tree changed after transform/inverse_transform/components/scores were called: %s"
+                          % (case.label, d[:4]), rp(case, "after-queries", "direct"))
+            numeric += run_paths(ctx, case, m, "after-queries", o0, [PATHS[0]], first_tree=dt1)
     if "after-compute" in moments:
         try:
             m.compute()
             o2 = observe(m, case)
-            diffs, _ = compare_obs(o0, o2, set(m.attrs.keys()))
+            diffs, _ = compare_obs(o0, o2, user_keys)
             report(ctx, case, "after-compute", "compute()", diffs)
             d = sig_diff(sig0, tree_signature(m.serialize()))
             if d:
                 ctx.violation("C13:%s:after-compute:tree-changed" % case.label,
-                              "%s: the serialised tree changed after compute(): %s" % (case.label, d[:4]),
-                              dict(kind="model", cls=case.name, rot=case.rot, struct=case.struct, attrs=case.attrs, pv=case.pv, seed=case.seed,
-                                   moment="after-compute"))
+                              "%s: the serialised tree changed after compute(): %s" % (case.label, d[:4]), rp(case, "after-compute", "direct"))
         except Exception as e:
             ctx.violation("C13:%s:after-compute:%s" % (case.label, C.errkind(e)), "%s: compute() on a fitted model raised %r" % (case.label, e),
-                          dict(kind="model", cls=case.name, rot=case.rot, struct=case.struct, attrs=case.attrs, pv=case.pv, seed=case.seed,
-                               moment="after-compute"))
+                          rp(case, "after-compute", "direct"))
     if "after-rotator-fit" in moments and not case.rot and Z.rotator_for(case.name) is not None:
         base = case.base
         R = Z.rotator_for(case.name)
         try:
-            R(n_modes=2, power=1, max_iter=200, rtol=1e-7).fit(base)
-        except Exception as e:
+            R(n_modes=2, power=1, max_iter=5000, rtol=1e-8).fit(base)
+        except Exception:
             ctx.dist["rotator-fit-failed/%s" % case.name] += 1
         else:
-            d = sig_diff(sig0, tree_signature(base.serialize()))
+            dt2 = base.serialize()
+            d = sig_diff(sig0, tree_signature(dt2))
             if d:
                 before = len(ctx.violations) + len(ctx.known_hits)
-                numeric += run_paths(ctx, case, base, "after-rotator-fit", o0, paths[:1])
+                numeric += run_paths(ctx, case, base, "after-rotator-fit", o0, [PATHS[0]], first_tree=dt2)
                 if len(ctx.violations) + len(ctx.known_hits) == before:
                     ctx.violation("C13:%s:after-rotator-fit:tree-changed" % case.label,
-                                  "%s: fitting a rotator on the model changed the model's own serialised tree: %s" % (case.label, d[:4]),
-                                  dict(kind="model", cls=case.name, rot=False, struct=case.struct, attrs=case.attrs, pv=case.pv, seed=case.seed,
-                                       moment="after-rotator-fit"))
+                                  "F-14b: %s: fitting a rotator on the model changed the model's own serialised tree: %s "
+                                  "(expected: the fitted model is not modified by a rotator)" % (case.label, d[:4]),
+                                  rp(case, "after-rotator-fit", "direct"))
     ctx.case(("model", case.label, case.struct, case.attrs, case.pv, tuple(p for p, _ in paths), tuple(moments)),
              nontrivial=numeric >= 2, tag="%s/%s/attrs=%s" % (case.label, case.struct, case.attrs),
              sample=dict(cls=case.label, struct=case.struct, attrs=case.attrs, params=C.jsonable(case.kw), paths=[p for p, _ in paths],
@@ -745,37 +781,44 @@ def plan(ctx):
     one cross-set class); thorough: the product"""
     cases = []
     classes = [(c, False) for c in ALL_CLASSES] + [(c, True) for c in ROTATABLE]
-    if ctx.quick:
-        for i, (c, rot) in enumerate(classes):
-            cases.append((Case(c, rot, "da2", "plain" if i % 2 else "none", 0, 100 + i), PATHS, MOMENTS))
-        for j, st in enumerate(STRUCTS[1:]):
-            cases.append((Case("EOF", False, st, "plain", j % 4, 200 + j), PATHS, ["fresh"]))
-            cases.append((Case("MCA", j % 2 == 1, st, "none", j % 4, 220 + j), PATHS[:3], ["fresh"]))
+    if True:
+        # suspected defects first: a rotator fitted on the model (F-14b), literal-looking user attributes (F-13)
+        for i, c in enumerate(ROTATABLE):
+            cases.append((Case(c, False, "da2", "none", 0, 100 + i), [PATHS[0], PATHS[1 + i % 3]], ["fresh", "after-queries", "after-rotator-fit"]))
         for j, at in enumerate(USER_ATTRS):
             if at in ("none", "plain"):
                 continue
             cases.append((Case("EOF", False, "ds" if j % 2 else "da3", at, 0, 240 + j), PATHS[:3], ["fresh"]))
             cases.append((Case("CPCCA", False, "da2", at, 1, 260 + j), PATHS[1:2], ["fresh"]))
+        for j, st in enumerate(STRUCTS[1:]):
+            cases.append((Case("EOF", False, st, "plain", j % 4, 200 + j), PATHS, ["fresh"]))
+            cases.append((Case("MCA", j % 2 == 1, st, "none", j % 4, 220 + j), PATHS[:1] + [PATHS[1 + j % 3]], ["fresh"]))
+        for i, (c, rot) in enumerate(classes):
+            if not rot and c in ROTATABLE:
+                continue
+            mom = ["fresh", "after-queries"] + (["after-compute"] if i % 2 == 0 else [])
+            cases.append((Case(c, rot, "da2", "plain" if i % 2 else "none", 0, 120 + i), [PATHS[0], PATHS[1 + i % 3]], mom))
         for j, pv in enumerate((1, 2, 3)):
             cases.append((Case(("EOF", "POP", "SparsePCA")[j], False, "da2", "none", pv, 280 + j), PATHS[:3], ["fresh"]))
-            cases.append((Case(("CPCCA", "RDA", "ComplexMCA")[j], False, "da2", "none", pv, 290 + j), PATHS[:3], ["fresh"]))
-    else:
+            cases.append((Case(("CPCCA", "RDA", "ComplexMCA")[j], False, "da2", "none", pv, 290 + j), [PATHS[0], PATHS[2]], ["fresh"]))
+    if not ctx.quick:
+        # after the targeted cases: the product class x structure x attributes (parameter variants rotate), in a
+        # seed-determined order so that a time-limited run still spreads over all classes
+        prod = []
         i = 0
         for (c, rot) in classes:
             for st in STRUCTS:
                 for at in USER_ATTRS:
-                    for pv in range(4):
-                        i += 1
-                        # full product on the two axes that interact (structure x attrs); parameter variants rotate
-                        if (i + hash((st, at)) % 4) % 4 != pv % 4 and not (st == "da2" and at == "none"):
-                            continue
-                        cases.append((Case(c, rot, st, at, pv, 1000 + i), PATHS, MOMENTS if st in ("da2", "ds") else ["fresh"]))
+                    i += 1
+                    prod.append((Case(c, rot, st, at, i % 4, 1000 + i), PATHS, MOMENTS if st in ("da2", "ds") else ["fresh"]))
+        order = ctx.rng.child("c13-plan").np.permutation(len(prod))
+        cases += [prod[k] for k in order]
     return cases
 
 
 def run_models(ctx):
     t0 = time.time()
-    budget = ctx.n(55, 780)
+    budget = ctx.n(45, 720)
     cases = plan(ctx)
     done = 0
     for case, paths, moments in cases:
